@@ -58,7 +58,7 @@ pub fn case_kinds(case: &Case, w: &mut dyn Write) {
         Kind::IoMap => emit_all::<MappedIo, E<'static>>(case, w, |k| {
             let bytes: Vec<u8> = data[k].iter().map(|&c| c as u32 as u8).collect();
             let f: fn(u8) -> (char, Sp) = io_pair;
-            chumsky::input::Input::map(chumsky::input::IoInput::new(std::io::Cursor::new(bytes)), Sp::from(200..200), f)
+            chumsky::input::Input::map(chumsky::input::IoInput::new(chumsky_verif_harness::build::Flaky::new(bytes)), Sp::from(200..200), f)
         }),
         Kind::WCtx => {
             fn go<'src>(case: &Case, data: &'src [Vec<char>], w: &mut dyn Write) {
